@@ -139,6 +139,55 @@ fn same(a: &Ident, b: &Ident) -> bool {
     }
 }
 
+/// m[i][j]: pool object j is the very object stored as an element of the list / vector i
+fn elem_matrix(vm: &marwood::vm::Vm, slots: &[Option<usize>]) -> Vec<Vec<bool>> {
+    use marwood::vm::vcell::VCell;
+    let cells = vm.verif_heap().verif_cells();
+    let ge = vm.verif_globenv();
+    let vals: Vec<VCell> = slots.iter().map(|s| s.map(|sl| ge.get_slot(sl)).unwrap_or(VCell::Undefined)).collect();
+    let ids: Vec<Ident> = vals.iter().map(|v| ident_of(cells, v)).collect();
+    let n = vals.len();
+    let mut m = vec![vec![false; n]; n];
+    for i in 0..n {
+        let mut elems: Vec<Ident> = vec![];
+        let top = match &vals[i] {
+            VCell::Ptr(p) => cells.get(*p).cloned().unwrap_or(VCell::Undefined),
+            o => o.clone(),
+        };
+        match &top {
+            VCell::Vector(rc) => {
+                for q in 0..rc.len() {
+                    if let Some(e) = rc.get(q) {
+                        elems.push(ident_of(cells, &e));
+                    }
+                }
+            }
+            VCell::Pair(_, _) => {
+                let mut cur = vals[i].clone();
+                let mut fuel = 100_000;
+                loop {
+                    fuel -= 1;
+                    match (ident_of(cells, &cur), fuel > 0) {
+                        (Ident::Pair(p), true) => match cells.get(p) {
+                            Some(VCell::Pair(a, d)) => {
+                                elems.push(ident_of(cells, &VCell::Ptr(*a)));
+                                cur = VCell::Ptr(*d);
+                            }
+                            _ => break,
+                        },
+                        _ => break,
+                    }
+                }
+            }
+            _ => {}
+        }
+        for j in 0..n {
+            m[i][j] = elems.iter().any(|c| same(c, &ids[j]));
+        }
+    }
+    m
+}
+
 /// m[i][j]: pool object j is the very object i, or the object reached from the list i by following cdrs
 fn share_matrix(vm: &marwood::vm::Vm, slots: &[Option<usize>]) -> Vec<Vec<bool>> {
     use marwood::vm::vcell::VCell;
@@ -287,6 +336,19 @@ fn replay_one(b: &Value, npool: usize, stats: &mut Stats) -> Vec<Value> {
                         return out;
                     }
                 }
+            }
+        }
+        // which pool objects are stored in which (element identity)
+        if let Some(sh) = o["elem"].as_array() {
+            stats.state_checks += 1;
+            let got_m: Vec<Vec<bool>> = elem_matrix(&s.vm, &slots);
+            let exp_m: Vec<Vec<bool>> = sh.iter().map(|r| r.as_array().map(|x| x.iter().map(|b| b.as_bool().unwrap_or(false)).collect()).unwrap_or_default()).collect();
+            if got_m != exp_m {
+                out.push(json!({"step": i + 1, "op": op, "text": text,
+                                "what": "element identity: which pool objects are the very objects stored in which list or vector differs after the step",
+                                "exp": exp_m, "got": got_m, "history": done_texts}));
+                stats.mismatches += 1;
+                return out;
             }
         }
         // which pool objects are the same object / share a tail
